@@ -266,3 +266,109 @@ func VF_C18_SelfOperand(n, op int) {
 	vf.BudgetReset()
 	vf.Reach("end")
 }
+
+// VF_C18_ClassFunctions: what a class function returns shares no storage with its operands.
+// sizes = na*4+nb; fn: 0 Set.And, 1 Set.Or, 2 Set.Sans, 3 Set.Xor, 4 List.Concatenate, 5 Catalog.Merge, 6 Catalog.Extract.
+func VF_C18_ClassFunctions(sizes, fn int) {
+	na, nb := sizes/4, sizes%4
+	// operands: concrete values (a: 2,4,6  b: 3,4,5 - one in common) except the first of each, which is arbitrary in 0..9
+	xs, ys := make([]int, na), make([]int, nb)
+	for i := range xs {
+		xs[i] = 2 * (i + 1)
+	}
+	for i := range ys {
+		ys[i] = 3 + i
+	}
+	if na > 0 {
+		xs[0] = vf.Int("a0")
+		vf.Assume(vf.And(xs[0] >= 0, xs[0] <= 9))
+	}
+	if nb > 0 {
+		ys[0] = vf.Int("b0")
+		vf.Assume(vf.And(ys[0] >= 0, ys[0] <= 9))
+	}
+	if fn >= 5 {
+		// catalog keys must be distinct within an operand
+		for i := 1; i < na; i++ {
+			vf.Assume(xs[0] != xs[i])
+		}
+		for i := 1; i < nb; i++ {
+			vf.Assume(ys[0] != ys[i])
+		}
+	}
+	w := vf.Int("w")
+	vf.Assume(vf.And(w >= 10, w <= 12))
+	vf.Budget(60 * listBudget)
+	switch {
+	case fn <= 3:
+		A := col.Set[int](nil).MakeFromArray(xs)
+		B := col.Set[int](nil).MakeFromArray(ys)
+		a0, b0 := clone(A.AsArray()), clone(B.AsArray())
+		r := setOp(fn, A, B)
+		r0 := clone(r.AsArray())
+		r.AddValue(w)
+		r.RemoveValue(4)
+		vf.Assert("operands-unaffected-by-changes-to-the-result", vf.And(eqInts(A.AsArray(), a0), eqInts(B.AsArray(), b0)))
+		r2 := setOp(fn, A, B)
+		A.AddValue(w)
+		B.AddValue(w + 1)
+		A.RemoveValue(2)
+		vf.Assert("result-unaffected-by-changes-to-the-operands", eqInts(r2.AsArray(), r0))
+	case fn == 4:
+		cls := col.List[int](nil)
+		A, B := cls.MakeFromArray(xs), cls.MakeFromArray(ys)
+		r := cls.Concatenate(A, B)
+		r.AppendValue(w)
+		if na+nb > 0 {
+			r.SetValue(1, w)
+			r.SetValue(-2, w)
+		}
+		vf.Assert("operands-unaffected-by-changes-to-the-result", vf.And(eqInts(A.AsArray(), xs), eqInts(B.AsArray(), ys)))
+		r2 := cls.Concatenate(A, B)
+		A.AppendValue(w)
+		B.InsertValue(0, w)
+		vf.Assert("result-unaffected-by-changes-to-the-operands", eqInts(r2.AsArray(), cat(xs, ys)))
+	default:
+		cls := col.Catalog[int, int](nil)
+		A, B := cls.Make(), cls.Make()
+		for i, k := range xs {
+			A.SetValue(k, 100+i)
+		}
+		for i, k := range ys {
+			B.SetValue(k, 200+i)
+		}
+		snap := func(c col.CatalogLike[int, int]) (out []int) {
+			for _, a := range c.AsArray() {
+				out = append(out, a.GetKey(), a.GetValue())
+			}
+			return
+		}
+		a0, b0 := snap(A), snap(B)
+		mk := func() col.CatalogLike[int, int] {
+			if fn == 5 {
+				return cls.Merge(A, B)
+			}
+			return cls.Extract(A, col.List[int](nil).MakeFromArray(ys))
+		}
+		r := mk()
+		r0 := snap(r)
+		for _, k := range cat(xs, ys) {
+			r.SetValue(k, w) // in-place update of every association of the result
+		}
+		r.SetValue(w, w)
+		vf.Assert("operands-unaffected-by-changes-to-the-result", vf.And(eqInts(snap(A), a0), eqInts(snap(B), b0)))
+		r2 := mk()
+		for _, k := range cat(xs, ys) {
+			if vf.Or(member(xs, k), false) {
+				A.SetValue(k, w)
+			}
+			if member(ys, k) {
+				B.SetValue(k, w)
+			}
+		}
+		A.SetValue(w, w)
+		vf.Assert("result-unaffected-by-changes-to-the-operands", eqInts(snap(r2), r0))
+	}
+	vf.BudgetReset()
+	vf.Reach("end")
+}
